@@ -265,8 +265,8 @@ func c12FieldVariants(fd protoreflect.FieldDescriptor, level int, top bool) []c1
 		e := base
 		e.Empty = true
 		out = append(out, c12LF{name + "={} (non-nil)", e})
-		keys := c12Boundaries(fd.MapKey(), false)
-		vals := c12ElemVariants(fd.MapValue(), level, false)
+		keys := c12Boundaries(fd.MapKey(), top)
+		vals := c12ElemVariants(fd.MapValue(), level, top)
 		// every key boundary with a fixed value, every value variant with a fixed key
 		fixedV := c12DistinctScalarOrEmpty(fd.MapValue())
 		fixedK := c12DistinctScalar(fd.MapKey(), 0)
@@ -296,7 +296,7 @@ func c12FieldVariants(fd protoreflect.FieldDescriptor, level int, top bool) []c1
 		e := base
 		e.Empty = true
 		out = append(out, c12LF{name + "=[] (non-nil)", e})
-		vals := c12ElemVariants(fd, level, false)
+		vals := c12ElemVariants(fd, level, top)
 		many := base
 		for _, v := range vals {
 			f := base
@@ -388,12 +388,37 @@ func c12Sweep(level int, emit func(C12Case)) {
 			}
 		}
 		emit(C12Case{Type: tn, Origin: "sweep:" + sn + " {} + three unknown fields", Msg: C12Msg{U: []C12Unk{unks[3], unks[0], unks[1]}}})
+		// unknown GROUPS: empty, flat members, nested under the same and under other numbers
+		gn := nums[0]
+		vi := C12Unk{Num: 1, W: "varint", V: 7}
+		groups := []struct {
+			label string
+			u     C12Unk
+		}{
+			{"empty group", C12Unk{Num: gn, W: "group"}},
+			{"group with flat members", C12Unk{Num: gn, W: "group", G: []C12Unk{vi, {Num: 2, W: "bytes", X: []byte("x")}, {Num: 3, W: "fixed32", V: 9}, {Num: 4, W: "fixed64", V: 9}}}},
+			{"group inside a group of the same number", C12Unk{Num: gn, W: "group", G: []C12Unk{{Num: gn, W: "group", G: []C12Unk{vi}}}}},
+			{"group 1001 inside group 1000", C12Unk{Num: 1000, W: "group", G: []C12Unk{{Num: 1001, W: "group", G: []C12Unk{vi}}}}},
+			{"groups 1 and 2 inside group 2000", C12Unk{Num: 2000, W: "group", G: []C12Unk{{Num: 1, W: "group"}, vi, {Num: 2, W: "group", G: []C12Unk{vi}}}}},
+			{"three levels, three numbers", C12Unk{Num: 2000, W: "group", G: []C12Unk{{Num: 1000, W: "group", G: []C12Unk{{Num: 1, W: "group", G: []C12Unk{vi}}, vi}}, vi}}},
+			{"inner group of another number, then more members", C12Unk{Num: 1000, W: "group", G: []C12Unk{{Num: 5, W: "group"}, {Num: 1000, W: "group"}, vi}}},
+		}
+		for _, g := range groups {
+			if ty.md.Fields().ByNumber(protoreflect.FieldNumber(g.u.Num)) != nil {
+				continue
+			}
+			emit(C12Case{Type: tn, Origin: "sweep:" + sn + " {} + unknown " + g.label, Msg: C12Msg{U: []C12Unk{g.u}}})
+		}
+		fullG := c12Full(ty.md, 1, 4)
+		fullG.U = []C12Unk{groups[3].u, unks[0]}
+		emit(C12Case{Type: tn, Origin: "sweep:" + sn + " full + unknown " + groups[3].label, Msg: *fullG})
 		for i := 0; i < fs.Len(); i++ {
 			fd := fs.Get(i)
 			if fd.Kind() != protoreflect.MessageKind || fd.IsMap() {
 				continue
 			}
-			sub := &C12Msg{U: []C12Unk{{Num: c12UnknownNumbers(fd.Message())[0], W: "bytes", X: []byte("nested")}}}
+			sub := &C12Msg{U: []C12Unk{{Num: c12UnknownNumbers(fd.Message())[0], W: "bytes", X: []byte("nested")},
+				{Num: 2000, W: "group", G: []C12Unk{{Num: 1, W: "group"}, {Num: 2, W: "group", G: []C12Unk{{Num: 1, W: "varint", V: 7}}}}}}}
 			f := C12Fld{Num: int32(fd.Number()), Name: string(fd.Name())}
 			if fd.IsList() {
 				f.L = []C12Val{{M: &C12Msg{}}, {M: sub}}
@@ -698,7 +723,41 @@ var c12UnkWires = []string{"varint", "fixed32", "fixed64", "bytes"}
 // there (a repeated number is legal).
 func c12GenUnknown(t *rapid.T, md protoreflect.MessageDescriptor, have []C12Unk) C12Unk {
 	nums := c12UnknownNumbers(md)
-	u := C12Unk{Num: nums[rapid.IntRange(0, len(nums)-1).Draw(t, "unknum")], W: c12UnkWires[rapid.IntRange(0, 3).Draw(t, "unkwire")]}
+	num := nums[rapid.IntRange(0, len(nums)-1).Draw(t, "unknum")]
+	// now and then the unknown field is a GROUP (start-group ... end-group), built
+	// recursively with inner numbers drawn independently
+	if c12Gen8.Draw(t, "unkgroup") >= 6 {
+		return c12GenGroup(t, num, 1)
+	}
+	u := C12Unk{Num: num, W: c12UnkWires[rapid.IntRange(0, 3).Draw(t, "unkwire")]}
+	c12GenUnkValue(t, &u)
+	return u
+}
+
+var c12GroupNums = []int32{1, 2, 3, 1000, 1001, 2000, 536870911}
+
+// c12GenGroup: a group numbered num with 0-3 members: flat fields and (to depth 3) further
+// groups whose numbers are drawn independently (the same as the enclosing one, or others).
+func c12GenGroup(t *rapid.T, num int32, depth int) C12Unk {
+	g := C12Unk{Num: num, W: "group"}
+	n := rapid.IntRange(0, 3).Draw(t, "members")
+	for i := 0; i < n; i++ {
+		mn := c12GroupNums[rapid.IntRange(0, len(c12GroupNums)-1).Draw(t, "membernum")]
+		if rapid.Bool().Draw(t, "samenum") {
+			mn = num
+		}
+		if depth < 3 && c12Gen8.Draw(t, "innergroup") >= 4 {
+			g.G = append(g.G, c12GenGroup(t, mn, depth+1))
+			continue
+		}
+		u := C12Unk{Num: mn, W: c12UnkWires[rapid.IntRange(0, 3).Draw(t, "unkwire")]}
+		c12GenUnkValue(t, &u)
+		g.G = append(g.G, u)
+	}
+	return g
+}
+
+func c12GenUnkValue(t *rapid.T, u *C12Unk) {
 	switch u.W {
 	case "bytes":
 		switch c12Gen8.Draw(t, "unkbytes") {
@@ -719,7 +778,6 @@ func c12GenUnknown(t *rapid.T, md protoreflect.MessageDescriptor, have []C12Unk)
 	default:
 		u.V = rapid.SampledFrom([]uint64{0, 1, math.MaxUint64}).Draw(t, "v")
 	}
-	return u
 }
 
 var c12ListGroups = map[protoreflect.FullName]map[protoreflect.FieldNumber]bool{}
